@@ -28,6 +28,7 @@ package sortref
 // of the map (trusted: reflection is outside the subset)
 //@ func DepthFirst(in)
 //@   aspect safe
+//@   assumed
 //@   modifies nothing
 //@   trusted_ensures forall i in 0..len(result) :: boxedKey(in, result[i])
 //@ ofun revIdxWF(m map[string]RefRevIdx) bool = forall n in dom(m) :: m[n].Ref.String() != "" && strsNE(m[n].Keys)
